@@ -113,6 +113,8 @@ def run(ctx):
     wtests.run(ctx)
     mon = install(ctx)
     rng = ctx.rng
+    from .. import longrun
+    _early = longrun.Early()
     n = ctx.budget(120_000, 1_200_000)
     done = 0
     while done < n and ctx.alive():
@@ -146,12 +148,18 @@ def run(ctx):
         ctx.sample({"via": via, "rate": rate, "accel": accel, "T": time, "accum": accum,
                     "ambient": ambient.describe()}, tag=classes[0])
         one_case(ctx, mon, rate, accel, time, accum, ambient, via)
+        _early.remember((rate, accel, time, accum, via))
         if rng.random() < 0.2:
             related_calls(ctx, mon, rng, rate, accel, time, accum, ambient)
         if time <= 3000 and done % 4 == 0:
             self_check(ctx, rate, accel, time, accum)
         done += 1
     chained(ctx, mon, ctx.budget(300, 3000))
+    from plotink import ebb_calc as _ec2
+    longrun.churn_then_replay(
+        ctx, _ec2, "move_dist_lt", lambda k: (1000 + k, k % 17 - 8, 1 + k % 5, k % 1000), _early,
+        lambda it: one_case(ctx, mon, it[0], it[1], it[2], it[3], G.Ambient("dps", 15), it[4]))
+    ctx.need("history: asked again after 100000+ other distinct requests", 30)
     import_time_phase(ctx, ctx.budget(1500, 12000))
     mon = install(ctx)
     for cls in ("arguments passed by keyword", "'clear' passed as a string built at run time",
